@@ -63,6 +63,14 @@ func (s *stub) RoundTrip(req *http.Request) (*http.Response, error) {
 	s.reqs = append(s.reqs, c)
 	// a transport may touch the header it was given: this must not reach DefaultHeader
 	req.Header.Add("X-Transport-Saw", "1")
+	// ... also in place: it rewrites the first value of every field and appends one to each (a copy of
+	// DefaultHeader that shares its value slices, or their spare capacity, would pass both on)
+	for k, v := range req.Header {
+		if len(v) > 0 && k != "Content-Type" {
+			v[0] = "rewritten-by-transport"
+			req.Header[k] = append(v, "appended-by-transport")
+		}
+	}
 	if s.transport != nil {
 		return nil, s.transport
 	}
@@ -263,6 +271,8 @@ func main() {
 	for _, ct := range ctors() {
 		inputs++
 		retainCase(ct, base)
+		inputs++
+		emptyResponseCase(ct, base)
 	}
 	r.Cov["states"] = inputs
 	r.Cov["transitions"] = evals
@@ -334,6 +344,45 @@ func replayCase(ct ctor, base string) {
 	}
 	if len(got) != 3 || got[0] != string(want) || got[1] != string(want) || got[2] != string(want) {
 		bad("body|replayed-evaluation", "%s: one MonadIO evaluated three times, serializer returning a one-shot reader (called %d times): request bodies %q, each must be %q", ct.name, calls, got, want)
+	}
+}
+
+// emptyResponseCase: a response with an empty body is deserialized like any other: the deserializer is called
+// (with no bytes), and a decoding failure - the default JSON decoder cannot decode nothing - comes back as Err.
+func emptyResponseCase(ct ctor, base string) {
+	for _, custom := range []bool{false, true} {
+		st := &stub{respBody: ""}
+		api := network.NewSimpleAPIWithSimpleHTTP(base, network.NewSimpleHTTPWithClientAndInterceptors(&http.Client{Transport: st}))
+		calls := 0
+		decodeErr := errors.New("decoder: nothing to decode")
+		if custom {
+			api.ResponseDeserializer = func(body []byte, target interface{}) (interface{}, error) {
+				calls++
+				if len(body) != 0 {
+					return target, fmt.Errorf("decoder received %d bytes for an empty response", len(body))
+				}
+				return target, decodeErr
+			}
+		}
+		var body interface{} = payload{A: 1, B: "b"}
+		if ct.kind == "multipart" {
+			body = &network.MultipartForm{Value: map[string][]string{"k": {"v"}}}
+		}
+		var resp *network.APIResponse[reply]
+		var t reply
+		evals++
+		if p := lib.Catch(func() { resp = ct.mk(api, "x")(nil, body, &t).Eval() }); p != "" {
+			bad("panic|eval|empty-response", "%s with an empty response body: %s", ct.name, p)
+			continue
+		}
+		switch {
+		case custom && calls != 1:
+			bad("deserializer-calls|empty-response", "%s: the response body is empty; the deserializer was called %d times, expected once", ct.name, calls)
+		case custom && resp.Err != decodeErr:
+			bad("error-not-surfaced|empty-response", "%s: the deserializer failed on the empty body with %v; Err is %v", ct.name, decodeErr, resp.Err)
+		case !custom && resp.Err == nil:
+			bad("error-not-surfaced|empty-response", "%s: the default JSON decoder cannot decode an empty body, yet Err is nil", ct.name)
+		}
 	}
 }
 
